@@ -401,6 +401,9 @@ pub async fn pull_room(src: &GraphDatabaseService, dst: &GraphDatabaseService, r
                 Err(e) => return (format!("err:{}", class(&e)), 1, false),
             };
             let mut to_insert = vec![];
+            // the peer answers in an arbitrary order (`id in (…)`); the harness fixes one: creation order
+            let mut nodes = nodes;
+            nodes.sort_by(|a, b| (a.cdate, a.id).cmp(&(b.cdate, b.id)));
             for mut node in nodes {
                 if node.verify().is_err() {
                     continue;
